@@ -323,6 +323,34 @@ def c09hup (a : List String) (obs : String) : String × String :=
     (model, judgeUpgrade cfg (hexOr req) (f.headD "") (get "proto") (get "written") false (get "exts"))
   | _ => ("BADOP", "skip")
 
+/-- Both upgraders with an application Negotiate callback that rejects (the model knows only the wsflate
+    negotiator: the observation is judged, not predicted): each response carries the callback's status (500 when it
+    chose none), its extra header, a Content-Length equal to the body, and the body is the reason. -/
+def c09upnr (a : List String) (obs : String) : String × String :=
+  match a with
+  | [code, reasonHex, hdrHex, _req] =>
+    let want := if code == "r0" || code == "0" then 500 else natOr code
+    let reason := hexOr reasonHex
+    let hdr := if hdrHex == "-" then [] else hexOr hdrHex
+    let judge (errCls written : String) : Option String :=
+      let wr := hexOr written
+      let st := natOr (bytesToString ((wr.drop 9).take 3))
+      if errCls == "nil" then some "upgrade-succeeded-although-the-negotiator-rejected"
+      else if st != want then some s!"status-{st}-not-the-callbacks-{want}"
+      else if hdr != [] && !contains wr hdr then some "rejection-header-missing"
+      else if (respHeader wr "Content-Length").map (fun b => natOr (bytesToString b)) != some (respBody wr).length then some "content-length"
+      else if respBody wr != reason then some "body-not-the-reason"
+      else none
+    let f := obs.splitOn " "
+    let get (k : String) : String := ((f.filter (·.startsWith (k ++ "="))).headD "").drop (k.length + 1) |>.toString
+    let v1 := judge (f.headD "") (get "written")
+    let v2 := if (get "h") == "" then none else judge (get "h") (get "hwritten")
+    (obs, match v1, v2 with
+      | some e, _ => s!"bad:Upgrader:{e}"
+      | none, some e => s!"bad:HTTPUpgrader:{e}"
+      | none, none => "ok")
+  | _ => ("BADOP", "skip")
+
 /-- HTTPUpgrader with a connection that refuses every write: no handshake has taken place, so success is never
     reported (the model has no failing connection: the observation is judged, not predicted). -/
 def c09hupw (_a : List String) (obs : String) : String × String :=
